@@ -1,6 +1,7 @@
 package c09
 
 import (
+	"context"
 	"fmt"
 	"sync"
 	"time"
@@ -22,6 +23,7 @@ func (r *run) batch(sub []Op) (*failure, bool) {
 		res    pool.LeaseResult
 		hang   *pool.Hang
 		victim []*mstream
+		ctx    context.Context // lease: the request context of an ended attempt (retry), nil for a fresh request
 	}
 	var items []*item
 	usedS := map[*mstream]bool{}
@@ -31,6 +33,22 @@ func (r *run) batch(sub []Op) (*failure, bool) {
 		switch op.K {
 		case "lease":
 			items = append(items, &item{op: op, tok: r.newToken()})
+			leases++
+		case "retry-lease":
+			it := &item{op: Op{K: "lease", A: op.A}, tok: r.newToken()}
+			var c []*mstream
+			for _, s := range r.strs {
+				if s.state != sActive && !s.retried && s.st != nil && s.st.State().Destroyed > 0 {
+					c = append(c, s)
+				}
+			}
+			if len(c) > 0 {
+				s := c[pick(len(c), op.A)]
+				s.retried = true
+				it.ctx = s.st.Ctx()
+				r.class("retry-lease")
+			}
+			items = append(items, it)
 			leases++
 		case "reply", "reset":
 			var cand []*mstream
@@ -114,7 +132,7 @@ func (r *run) batch(sub []Op) (*failure, bool) {
 			<-start
 			switch it.op.K {
 			case "lease":
-				it.res = r.rig.Lease(it.tok, initWait)
+				it.res = r.rig.LeaseCtx(it.tok, initWait, it.ctx)
 			case "reply":
 				_ = r.rig.Up.Reply(it.s.token, pool.ReplyOpt{})
 			case "reset":
